@@ -122,6 +122,9 @@ POSITIONS = {
     'in_subquery': '(x.id for x in E if x.id in (y.id for y in E if %s == t))',
     'count_subquery': '(x.id for x in E if count(y for y in E if y.id == x.id and %s == t) > 0)',
     'filter_lambda': None,
+    'query_in': None,        # x in q, q = another Query object with the slice
+    'query_from': None,      # select(... for x in q)
+    'bulk_delete': None,     # q.delete(bulk=True); judged by the rows that are gone (rolled back afterwards)
 }
 
 
@@ -143,7 +146,25 @@ def run_position_query(E, rows, position, kind, i, j, t):
             except IndexError:
                 may.add(n)
     with db_session:
-        if position == 'filter_lambda':
+        if position in ('query_in', 'query_from', 'bulk_delete'):
+            from pony.orm import rollback
+            if kind == 'slice':
+                q = select(y for y in E if y.s[i:j] == t)
+            else:
+                q = select(y for y in E if y.s[i] == t)
+            if position == 'query_in':
+                src = 'select(x.id for x in E if x in q), q = select(y for y in E if %s == t)' % expr
+                got = set(select(x.id for x in E if x in q)[:])
+            elif position == 'query_from':
+                src = 'select(x.id for x in q), q = select(y for y in E if %s == t)' % expr
+                got = set(select(x.id for x in q)[:])
+            else:
+                src = 'select(y for y in E if %s == t).delete(bulk=True)' % expr
+                before = set(select(x.id for x in E)[:])
+                q.delete(bulk=True)
+                got = before - set(select(x.id for x in E)[:])
+                rollback()
+        elif position == 'filter_lambda':
             src = 'select(y for y in E).filter(lambda y: %s == t)' % expr
             q = select('(y for y in E)', {'E': E}, {})
             if kind == 'slice':
